@@ -88,6 +88,37 @@ pub fn c10() -> Vec<(&'static str, Vec<Op>)> {
                 sync_dir("/d"),
             ],
         ),
+        // zone `rename-onto-unsynced-entry`
+        (
+            "rename-onto-unflushed-rename-target",
+            vec![
+                w("/a", 1, 0),
+                sync_all("/a"),
+                mv("/a", "/b"),
+                mkdir("/d"),
+                w("/d/a", 1, 5),
+                sync_all("/d/a"),
+                sync_dir("/d"),
+                mv("/d/a", "/b"),
+                sync_dir("/d"),
+            ],
+        ),
+        // zone `rename-unsynced-create-cross-dir` (entry created by a rename)
+        (
+            "rename-back-across-dirs",
+            vec![
+                mkdir("/d"),
+                w("/d/a", 1, 3),
+                sync_all("/d/a"),
+                w("/a", 1, 0),
+                sync_all("/a"),
+                sync_dir("/"),
+                mv("/a", "/d/a"),
+                sync_dir("/"),
+                mv("/d/a", "/a"),
+                sync_dir("/"),
+            ],
+        ),
         // these conform (kept as fixed regression scenarios for the fix commits)
         (
             "rename-onto-existing-synced",
